@@ -174,6 +174,7 @@ Proof.
   unfold handle_reexport. destruct (memN a ex); [|apply same_ctl_refl].
   destruct (match nget o (contents_of s g) with Some c => Some c | None => resolve_name s g [o] end) as [c|];
     [|apply same_ctl_refl].
+  destruct (match objs s c with Some cb => _ | None => false end); cbn [fst]; [apply same_ctl_refl|].
   destruct (match objs s g with Some gb => _ | None => false end); cbn [fst]; [apply same_ctl_refl|apply ctl_reparent].
 Qed.
 
